@@ -81,17 +81,25 @@ One(b, a, t, ov) ==
   ELSE LET b1 == IF NeedEvict(b, a, t) THEN [b EXCEPT ![Victim(b)] = None] ELSE b
        IN [b1 EXCEPT ![a] = [ttl |-> t, rem |-> Life(t)]]
 
-RECURSIVE Fold(_, _, _, _), FoldTie(_, _, _, _), FoldOwn(_, _, _, _, _)
+RECURSIVE Fold(_, _, _, _), FoldTie(_, _, _, _), FoldOwn(_, _, _, _, _, _)
 Fold(b, q, t, ov) == IF q = <<>> THEN b ELSE Fold(One(b, Head(q), t, ov), Tail(q), t, ov)
 \* some eviction of the call chose among several entries with the same nearest expiry
 FoldTie(b, q, t, ov) ==
   q # <<>> /\ \/ (NeedEvict(b, Head(q), t) /\ Cardinality(Minima(b)) > 1)
               \/ FoldTie(One(b, Head(q), t, ov), Tail(q), t, ov)
-\* some eviction of the call removed an address the SAME call had inserted (`new`)
-FoldOwn(b, q, t, ov, new) ==
-  q # <<>> /\ \/ (NeedEvict(b, Head(q), t) /\ Victim(b) \in new)
-              \/ FoldOwn(One(b, Head(q), t, ov), Tail(q), t, ov,
-                         IF Present(b, Head(q)) THEN new ELSE new \cup {Head(q)})
+\* The outcome of the call depends on state the call itself produced: some eviction removed an address
+\* the SAME call had inserted (`new`), or a new unconnected address is processed after the call moved a
+\* stored entry between the connected and the unconnected class (`chg`: the count differs from the one
+\* before the call).  Flagged in `op.own`: an implementation that evaluates the cap against the state
+\* before the call answers differently there.
+FoldOwn(b, q, t, ov, new, chg) ==
+  q # <<>> /\ LET a == Head(q)
+                  b1 == One(b, a, t, ov)
+              IN \/ (NeedEvict(b, a, t) /\ Victim(b) \in new)
+                 \/ (chg /\ ~Present(b, a) /\ ~IsConn(t))
+                 \/ FoldOwn(b1, Tail(q), t, ov,
+                            IF Present(b, a) THEN new ELSE new \cup {a},
+                            chg \/ (Present(b, a) /\ IsConn(b[a].ttl) # IsConn(b1[a].ttl)))
 
 \* the book after AddAddrs (ov = FALSE) / SetAddrs with a positive ttl (ov = TRUE) naming batch B
 Put(b, B, t, ov) ==
@@ -102,7 +110,7 @@ Put(b, B, t, ov) ==
                               ELSE [ttl |-> t, rem |-> Life(t)])
                         ELSE b[a]]
 Tie(b, B, t, ov) == Cap > 0 /\ FoldTie(b, B, t, ov)
-Own(b, B, t, ov) == Cap > 0 /\ FoldOwn(b, B, t, ov, {})
+Own(b, B, t, ov) == Cap > 0 /\ FoldOwn(b, B, t, ov, {}, FALSE)
 
 Add(S, t) ==
   /\ IF t = 0 THEN book' = book /\ rec' = rec
